@@ -30,7 +30,7 @@ def series_transformers():
         L.append({"name": name, "kind": "series-transformer", "factory": f,
                   "methods": ["transform"] + (["inverse_transform"] if inverse else []),
                   "inverse": inverse, "positive": positive, "same_index": same_index, "missing": missing,
-                  "update": update})
+                  "update": update, "frame": False})
     add("detrender", lambda: Detrender(), inverse=True, update=True)
     add("detrender_poly2", lambda: Detrender(PolynomialTrendForecaster(degree=2)), inverse=True, update=True)
     add("deseason_add", lambda: Deseasonalizer(sp=4), inverse=True, update=True)
@@ -46,6 +46,17 @@ def series_transformers():
     add("adapt_minmax", lambda: TabularToSeriesAdaptor(MinMaxScaler()), inverse=True)
     add("optpass_on", lambda: OptionalPassthrough(LogTransformer(), passthrough=True), inverse=True, positive=True)
     add("optpass_off", lambda: OptionalPassthrough(LogTransformer(), passthrough=False), inverse=True, positive=True)
+    def reconfigured():
+        # fitted once as a real transformer, then switched to passthrough with set_params (fit follows)
+        import pandas as pd
+        o = OptionalPassthrough(LogTransformer(), passthrough=False)
+        o.fit(pd.Series([1.0, 2.0, 3.0, 4.0]))
+        return o.set_params(passthrough=True)
+    add("optpass_reconfigured", reconfigured, inverse=True, positive=True)
+    add("adapt_standard_frame", lambda: TabularToSeriesAdaptor(StandardScaler()), inverse=True)
+    L[-1]["frame"] = True
+    add("adapt_minmax_frame", lambda: TabularToSeriesAdaptor(MinMaxScaler()), inverse=True)
+    L[-1]["frame"] = True
     add("cosine", lambda: CosineTransformer())
     add("acf", lambda: AutoCorrelationTransformer(n_lags=4), same_index=False)
     add("pacf", lambda: PartialAutoCorrelationTransformer(n_lags=3), same_index=False)
